@@ -28,7 +28,7 @@ Definition accept_hostname (s : word) : bool := accepts hostname_top s.
 Definition dotted_quad (s : word) : bool := accepts ipv4_top s.
 
 (* what the hostname expression accepts, in elementary terms *)
-Fixpoint dashes_then_alnum (fuel : nat) (s : word) : bool :=
+Fixpoint dashes_then_alnum (fuel : nat) (s : word) {struct s} : bool :=
   match s with
   | [] => false
   | c :: s' =>
